@@ -869,3 +869,33 @@ Proof.
     + rewrite <- (proj_par_neg_axis u nrm _ Hn).
       exact (across_carries_plane c (vneg u) w l surfs Hl Hcarry' Hsense Hsym Hturn' 2 3 nrm q ltac:(lia) ltac:(lia) O3 Hn' Hq).
 Qed.
+
+(* pieces (i) packaged: the two hypotheses of hex_base_vectors_partial *)
+Theorem hex_adjacency_geometry :
+  forall (c u : rvec) (w : nat -> rvec) (l : list nat) (surfs : list rsurf),
+  In l all_listings ->
+  (forall i, (i < 6)%nat -> carries u w (pl surfs i) (side_at l i)) ->
+  (forall i, (i < 6)%nat -> sd surfs i = planeSide RS c (pl surfs i) /\ sd surfs i <> 0%Z) ->
+  (forall k, wv w (k + 3) = vsub (vscale 2 c) (wv w k)) ->
+  (forall k, 0 < det3 (vsub (wv w (k + 1)) (wv w k)) (vsub (wv w (k + 2)) (wv w (k + 1))) u) ->
+  forall i j, (i < j < 6)%nat -> (i / 2 <> j / 2)%nat ->
+    cross (snd (pl surfs i)) (snd (pl surfs j)) <> (0, 0, 0) /\
+    let k1 := (2 * other_group i j)%nat in
+    if adjb_of_listing l i j
+    then inside surfs k1 (wv w (vertex_of l (i, j))) /\ inside surfs (k1 + 1) (wv w (vertex_of l (i, j)))
+    else forall X, on_plane X (pl surfs i) -> on_plane X (pl surfs j) ->
+                   ~ (inside surfs k1 X /\ inside surfs (k1 + 1) X).
+Proof.
+  intros c u w l surfs Hl Hc Hs Hsym Ht i j Hij Hg. split.
+  - exact (hex_planes_independent c u w l surfs Hl Hc Hs Hsym Ht i j Hij Hg).
+  - exact (hex_sign_facts c u w l surfs Hl Hc Hs Hsym Ht i j Hij Hg).
+Qed.
+
+Theorem regular_hexagon_in_family : forall (c e1 e2 u : rvec) (h : R),
+  0 < h -> 0 < det3 e1 e2 u ->
+  (forall k, wv (hexagon_of c e1 e2 h) (k + 3) = vsub (vscale 2 c) (wv (hexagon_of c e1 e2 h) k)) /\
+  (forall k, 0 < det3 (vsub (wv (hexagon_of c e1 e2 h) (k + 1)) (wv (hexagon_of c e1 e2 h) k))
+                      (vsub (wv (hexagon_of c e1 e2 h) (k + 2)) (wv (hexagon_of c e1 e2 h) (k + 1))) u).
+Proof.
+  intros c e1 e2 u h Hh Hd. split; intros k; [apply hexagon_of_sym|apply hexagon_of_turn; assumption].
+Qed.
